@@ -76,6 +76,8 @@ def run(ctx):
                     ctx.violation(RN, k + "|selection-condition", "`%s` is emitted on a path that is not decided by %s" % (ident, " && ".join(n + "()" for n, _ in sorted(need))), loc,
                                   {"guards": sorted(map(str, g))})
 
+    watermark_rule(ctx)
+
     if ctx.tier == "thorough":
         # independent cross-check of the solver by the real type checker: compile-fail witnesses with compiling twins
         import witness
@@ -96,3 +98,36 @@ def _ordinal(b, bb, nm, ident):
             return k
         k += 1
     return k
+
+
+NEG = {"<": ">=", "<=": ">", ">": "<=", ">=": "<"}
+
+
+def watermark_rule(ctx):
+    """ReduceKeyedWatermark keeps a map of keys and a current watermark in one fold. Arrival order of (key, watermark) must not matter: a key is rejected on arrival
+    exactly when the garbage collection run by the watermark would have removed it. The two predicates live in one generated closure (template text): the arrival
+    guard `if k OP1 curr_watermark { return; }` and the collection `map.retain(|k, _| *k OP2 watermark)` must be complements (OP2 == not OP1)."""
+    import re
+    import synfacts
+    R = ctx.rule("C28.watermark", "in the watermarked keyed reduce the arrival guard and the retain predicate are complementary comparisons (the result does not depend on whether a key or the "
+                 "watermark arrives first)", floor=1)
+    f = "hydro_lang/src/compile/ir/mod.rs"
+    d = synfacts.scan([f])
+    tpls = [m for v in d.values() for m in v["macros"] if m["macro"] in ("parse_quote", "parse_quote_spanned") and "retain" in m["text"] and "watermark" in m["text"]]
+    if not tpls:
+        ctx.anchor_missing(R, "watermarked reduce template (retain + watermark) in emit_core")
+        return
+    for i, m in enumerate(tpls):
+        t = m["text"]
+        key = "hydro_lang|emit_core|ReduceKeyedWatermark#%d" % (i + 1)
+        rej = re.findall(r"if (\w+) (<=|>=|<|>) (\w*watermark\w*) \{ return ; \}", t)
+        keep = re.findall(r"retain \( \| (\w+) , _ \| \* \1 (<=|>=|<|>) (\w*watermark\w*) \)", t)
+        # the guard on the key (not the guard that ignores stale watermarks, whose left operand is itself a watermark)
+        rej = [r for r in rej if "watermark" not in r[0]]
+        ctx.inst(R, key, sites=len(rej) + len(keep), sample={"line": m["line"], "arrival_guard": rej, "retain": keep})
+        if len(rej) != 1 or len(keep) != 1:
+            ctx.violation(R, key + "|unrecognised-form", "cannot read exactly one arrival guard and one retain predicate from the template (%d, %d)" % (len(rej), len(keep)), "%s:%s" % (f, m["line"]))
+            continue
+        if keep[0][1] != NEG[rej[0][1]]:
+            ctx.violation(R, key + "|guards-not-complementary", "a key is rejected on arrival when `k %s watermark` but kept by the collection when `k %s watermark`: a key equal to the watermark "
+                          "survives or not depending on whether it arrived before or after the watermark" % (rej[0][1], keep[0][1]), "%s:%s" % (f, m["line"]))
